@@ -257,6 +257,7 @@ class Engine:
         self.stats = {"feasibility_checks": 0}
         self.used_prelude_ids = set()
         self.unchecked_asserts = set()
+        self._feas_cache: Dict[Any, Any] = {}
 
     # ------------------------------------------------------------------ helpers
     def class_by_name(self, name: str) -> ClassInfo:
@@ -319,15 +320,20 @@ class Engine:
 
     def feasible(self, ctx: Ctx, cond) -> bool:
         """Path pruning only (an over-approximation is sound): quantifier-free part of the path condition."""
+        qf = [p for p in ctx.pc if not has_quantifier(p)]
+        key = (tuple(p.get_id() for p in qf), cond.get_id())
+        hit = self._feas_cache.get(key)
+        if hit is not None:
+            return hit[0]
         self.stats["feasibility_checks"] += 1
         s = z3.Solver()
         s.set("timeout", self.FEAS_TIMEOUT_MS)
-        for p in ctx.pc:
-            if not has_quantifier(p):
-                s.add(p)
+        for p in qf:
+            s.add(p)
         s.add(cond)
-        r = s.check()
-        return r != z3.unsat
+        r = s.check() != z3.unsat
+        self._feas_cache[key] = (r, qf, cond)  # the terms are kept alive so that their ids stay unique
+        return r
 
     # ------------------------------------------------------------------ class model
     def field_kind(self, cls: ClassInfo, name: str):
@@ -718,6 +724,7 @@ class Engine:
                 continue
             cls = self.repo.classes[q]
             ctx = Ctx(self, "<class-axioms>", [])
+            ctx.under_quantifier = True
             obj = Obj(cls, False, r, None, ctx)
             res = self.run_spec(ctx, cs.invariant, obj)
             clauses = list(res.values()) if isinstance(res, dict) else list(res or [])
@@ -728,6 +735,9 @@ class Engine:
             pats = own or pats
             out.append(("class-invariant:" + cls.name, "established by %s.__init__ (obligation inv#...)" % cls.name,
                         z3.ForAll([r], z3.Implies(guard, body), patterns=pats[:8])))
+            for k_, a_ in enumerate(ctx.axioms):
+                out.append(("class-invariant:%s/aux%d" % (cls.name, k_), "definition of a canonical filtered / mapped "
+                            "sequence used by the invariant", a_))
         return out
 
     def kind_from_annotation(self, finfo: FuncInfo, ann):
